@@ -23,6 +23,7 @@ Kid == <<Ins("Y", U, 0, "", ""), Ins("S", 0, 0, "", "/c")>>
 Kid3 == <<Ins("Y", U, 0, "", ""), Ins("W", 0, 0, "", "c1"), Ins("Y", 2 * U, 0, "", "")>>
 Programs == {[clocks |-> [t1 |-> <<1, 1>>],
               routines |-> [r0 |-> b0, r1 |-> b1, r2 |-> Kid, r3 |-> Kid3],
+              funcs |-> <<>>,
               main |-> <<Ins("P", 0, 0, "sys", "r0"), Ins("P", 0, 0, "t1", "r1"), Ins("P", 0, 0, "t1", "r3")>>]
              : b0 \in Bodies(VocabSys, MaxLenS), b1 \in Bodies(VocabT1, MaxLenT)}
 
